@@ -1,39 +1,57 @@
 (* C10 — distributed slack: property theorems (proofs in C10/Proofs.v; split model of C01).
    n : net with the gen rows' reference flags widened (rows with SL_FAC != 0), ref : reference buses widened by the
    buses with SL_FAC_BUS != 0 (run_newton_raphson_pf.py:77-90);  s : the slack variable of the Newton iteration;
-   ds_mism = Newton P mismatch of the bus + w_bus*s*baseMVA (zero on convergence);  dev = PG after pfsoln - PG setpoint. *)
+   ds_mism = Newton P mismatch of the bus + w_bus*s*baseMVA (zero on convergence);  dev = PG after pfsoln - PG setpoint.
+   The model follows the repaired code (weights paired with the bus of their own xward, per-bus weighted xward shares,
+   pfsoln adds the demand the solver used); the rules before the repairs are kept as *_old and refuted. *)
 From Coq Require Import ZArith QArith Qabs List Bool.
 From PPV Require Import Base.QN Base.QC C01.Model C01.Balance C10.Model C10.Proofs.
 Import ListNotations.
 Open Scope Q_scope.
 
 (* every participating (or reference) gen / ext_grid row deviates by  - s*baseMVA * w_g / W : the same value per unit
-   of weight on every bus, whatever the mix of rows at its bus *)
+   of weight on every bus, whatever the mix of rows and loads (ZIP included) at its bus *)
 Theorem C10_gen_share : forall n ref k v sinj wb s W g,
   memn k ref = true -> In g (gens_on_at n k) -> g_ref g = true ->
   ((1 < length (gens_on_at n k))%nat -> 0 < sumf g_w (filter g_ref (gens_on_at n k))) ->
   wb * W == sumf g_w (filter g_ref (gens_on_at n k)) ->
-  ds_mism n k v sinj wb s == 0 -> re (Sload n k v) == PD n k ->
-  dev n ref g sinj * W == - (s * base n) * g_w g.
+  ds_mism n k v sinj wb s == 0 ->
+  dev n ref g v sinj * W == - (s * base n) * g_w g.
 Proof. exact gen_share. Qed.
 Print Assumptions C10_gen_share.
 
-Theorem C10_equal_ratio : forall n ref s W sinj1 sinj2 g1 g2,
+Theorem C10_equal_ratio : forall n ref s W v1 v2 sinj1 sinj2 g1 g2,
   ~ W == 0 ->
-  dev n ref g1 sinj1 * W == - (s * base n) * g_w g1 ->
-  dev n ref g2 sinj2 * W == - (s * base n) * g_w g2 ->
-  dev n ref g1 sinj1 * g_w g2 == dev n ref g2 sinj2 * g_w g1.
+  dev n ref g1 v1 sinj1 * W == - (s * base n) * g_w g1 ->
+  dev n ref g2 v2 sinj2 * W == - (s * base n) * g_w g2 ->
+  dev n ref g1 v1 sinj1 * g_w g2 == dev n ref g2 v2 sinj2 * g_w g1.
 Proof. exact equal_ratio. Qed.
 Print Assumptions C10_equal_ratio.
 
-Theorem C10_non_participants_keep_setpoints : forall n ref g sinj,
+Theorem C10_non_participants_keep_setpoints : forall n ref g v sinj,
   memn (g_bus g) ref = false \/ (g_ref g = false /\ (1 < length (gens_on_at n (g_bus g)))%nat) ->
-  dev n ref g sinj == 0.
+  dev n ref g v sinj == 0.
 Proof. exact non_participant_keeps. Qed.
 Print Assumptions C10_non_participants_keep_setpoints.
 
+(* xwards (consumption up = generation down): every participating xward gets  w_bus*s*baseMVA * w_x / (weight of its bus),
+   for any number of xwards and any other elements on the bus; with w_bus * W = weight of the bus this is the same
+   s*baseMVA/W per unit of weight as for the gens.  Non-participating xwards keep ps. *)
+Theorem C10_xward_share : forall n ref vs xws x sinj wb s,
+  memn (xr_k x) ref = true -> has_gen n (xr_k x) = false ->
+  ~ xw_weight x == 0 -> ~ xw_bus_weight xws (xr_k x) == 0 ->
+  ds_mism n (xr_k x) (vof vs (xr_k x)) sinj wb s == 0 ->
+  (xward_row n vs (fun k => PD_after n ref k sinj) xws x - qmul (xr_ps x) (b2q (xr_on x))) * xw_bus_weight xws (xr_k x)
+  == wb * s * base n * xw_weight x.
+Proof. exact xward_share. Qed.
+Print Assumptions C10_xward_share.
+Theorem C10_xward_non_participants_keep_setpoints : forall n vs pd xws x,
+  xw_weight x == 0 -> xward_row n vs pd xws x == qmul (xr_ps x) (b2q (xr_on x)).
+Proof. exact xward_keeps. Qed.
+Print Assumptions C10_xward_non_participants_keep_setpoints.
+
 (* weight normalisation on one island: the written bus weights sum to 1 and each is the island-normalised sum of the
-   weights paired with that bus *)
+   weights paired with that bus; the j-th xward weight is paired with the PQ bus of the j-th in-service xward *)
 Theorem C10_weights_normalised : forall buses ws sub bw,
   norm_loop buses ws [sub] [] = NOk bw -> sumf snd bw == 1.
 Proof. exact norm_single_total. Qed.
@@ -44,32 +62,33 @@ Theorem C10_bus_weight_formula : forall buses ws sub bw b q,
        / masked_sum buses ws sub.
 Proof. exact norm_single_entry. Qed.
 Print Assumptions C10_bus_weight_formula.
-(* ... but the xward weights (table order) are paired with the sorted-unique PQ buses: refuted outside G10w *)
-Theorem C10_xward_weight_pairing_refuted :
+Theorem C10_xward_weight_pairing : forall xws j b,
+  nth_error (xward_pq_buses xws) j = Some b <-> exists x, nth_error (filter x_on xws) j = Some x /\ x_pq x = b.
+Proof. exact xward_pairing. Qed.
+Print Assumptions C10_xward_weight_pairing.
+
+(* the rules before the repairs are refuted by witnesses: sorted-unique pairing swapped the weights of two xwards,
+   the old extraction gave two xwards each other's variable part; under the old guard G10x it was right *)
+Theorem C10_old_xward_weight_pairing_refuted :
   G10w wit_xwb = false /\
-  exists bw, normalise wit_wsrc wit_xwb [[0; 1; 2; 3]%nat] 4 = NOk bw /\
-             bw_lookup bw 3 == 2 # 4 /\ bw_lookup bw 2 == 1 # 4.
-Proof. exact xward_weight_order_refuted. Qed.
-Print Assumptions C10_xward_weight_pairing_refuted.
-
-(* xward share: partial (single xward, raw p_mw of its bus = static demand) and refuted in general *)
-Theorem C10_xward_share_partial : forall n ref others x v sinj wb s r,
-  G10x n others [x] = true ->
-  memn (xr_k x) ref = true -> has_gen n (xr_k x) = false ->
-  ds_mism n (xr_k x) v sinj wb s == 0 -> re (Sload n (xr_k x) v) == PD n (xr_k x) ->
-  xward_p (fun k => PD_after n ref k sinj) others [x] = XOk [Some r] ->
-  r - xr_ps x == wb * s * base n.
-Proof. exact xward_share. Qed.
-Print Assumptions C10_xward_share_partial.
-Theorem C10_xward_share_refuted :
-  exists pd, xward_p pd [] wit_x2 = XOk [Some (5 + (pd 3%nat - 5) + (pd 2%nat - 3)); Some (3 + (pd 3%nat - 5) + (pd 2%nat - 3))]%Q
+  (exists bw, normalise_old wit_wsrc wit_xwb [[0; 1; 2; 3]%nat] 4 = NOk bw /\ bw_lookup bw 3 == 2 # 4 /\ bw_lookup bw 2 == 1 # 4) /\
+  (exists bw, normalise wit_wsrc wit_xwb [[0; 1; 2; 3]%nat] 4 = NOk bw /\ bw_lookup bw 3 == 1 # 4 /\ bw_lookup bw 2 == 2 # 4).
+Proof. exact xward_weight_order_old_refuted. Qed.
+Print Assumptions C10_old_xward_weight_pairing_refuted.
+Theorem C10_old_xward_extraction_refuted :
+  exists pd, xward_p_old pd [] wit_x2 = XOk [Some (5 + (pd 3%nat - 5) + (pd 2%nat - 3)); Some (3 + (pd 3%nat - 5) + (pd 2%nat - 3))]%Q
              /\ pd 3%nat = 6 /\ pd 2%nat = 5.
-Proof. exact xward_extraction_refuted. Qed.
-Print Assumptions C10_xward_share_refuted.
+Proof. exact xward_extraction_old_refuted. Qed.
+Print Assumptions C10_old_xward_extraction_refuted.
+Theorem C10_old_xward_extraction_partial : forall n others x pd,
+  G10x n others [x] = true ->
+  exists r, xward_p_old pd others [x] = XOk [Some r] /\ r == xr_ps x + (pd (xr_k x) - PD n (xr_k x)).
+Proof. exact xward_single_old. Qed.
+Print Assumptions C10_old_xward_extraction_partial.
 
-(* non-vacuity: the guard of the xward theorem is satisfiable (one xward next to a load on its bus) *)
+(* non-vacuity: two participating xwards on one bus next to a ZIP load satisfy the hypotheses of C10_xward_share *)
 Example C10_nonvacuous :
-  G10x (mkNet [mkLoad 2 2 (3#2) 0 1 true 0 0 0 0] [mkPq 2 2 5 1 1 true false] [] [] true 1 [(2%nat, 2%nat)])
-       [mkNe 2 (3#2) true] [mkXw 2 2 5 (1#2) true true] = true.
-Proof. reflexivity. Qed.
+  let xws := [mkXw 2 2 5 (1#2) true true; mkXw 2 2 3 1 true true] in
+  ~ xw_weight (mkXw 2 2 5 (1#2) true true) == 0 /\ xw_bus_weight xws 2 == 3 # 2.
+Proof. split; [intros E; discriminate E | vm_compute; reflexivity]. Qed.
 Print Assumptions C10_nonvacuous.
